@@ -380,6 +380,16 @@ func profileFor(prop string, r *sim.Rand, i int, quick bool) sim.Profile {
 		p.RichGenesis = i%8 == 4
 		p.ImpliedSupply = (prop == "C01" || prop == "C02") && i%8 == 5
 		p.HugeGenesisStake = i%16 == 4 && prop != "C01"
+		if (prop == "C01" || prop == "C05") && i%16 == 14 {
+			// scale: hundreds of validators (more records than the keepers' decoding caches hold once a few of them
+			// have changed), everybody in Tendermint's set or a cut-off in the middle of it
+			p.NEd, p.GenesisVals = 492, 484
+			p.Blocks = 36
+			p.Name += "+scale"
+			if p.CustomPos {
+				p.Pos.MaxValidators = []uint64{100000, 300}[i/16%2]
+			}
+		}
 		p.ExportedGenesis = i%16 == 12
 	}
 	switch prop {
@@ -487,6 +497,10 @@ func profileFor0(prop string, r *sim.Rand, i int, quick bool) sim.Profile {
 		}
 		p.MissLevels = []int{0, 10, 45, 50, 55, 80, 100}
 		p.PhaseLen = int(p.Pos.SignedBlocksWindow)/2 + 1 + r.Intn(8)
+		if i%8 == 5 {
+			p.WindowChanges = true
+			p.W["govparam"] = 14
+		}
 		p.EvidencePct, p.BurnPct, p.AwardPct = 0, 2, 5
 		p.W["stake"], p.W["unstake"], p.W["unjail"] = 22, 8, 18
 		p.MaxTx = 4
